@@ -3,6 +3,7 @@ import DaskModel.Model.Cumulative
 import DaskModel.Model.Overlap
 import DaskModel.Model.OverlapTime
 import DaskModel.Model.Frame
+import DaskModel.Model.FrameMap
 import DaskModel.Model.TreeReduce
 import DaskModel.Model.RelExpr
 import DaskModel.Model.OrRewrite
@@ -306,6 +307,26 @@ def hPipeSpec : Handler := handler fun args =>
   | [ops, rows] => do
     let ops ← (← ops.toList?).mapM toOpF?
     pure (ofFrame (Dask.Frame.pipeline ops (← toFrame? rows)))
+  | _ => none
+
+/-- a dict literal `((k v)…)` -/
+def toDict? (e : SExp) : Option (List (Int × Int)) := do
+  (← e.toList?).mapM (fun kv => match kv with | .list [.int k, .int v] => some (k, v) | _ => none)
+
+/-- `(mapcol dict src dst (parts…))` ↦ partitions of `df.assign(dst = df[src].map(dict))` done blockwise -/
+def hMapCol : Handler := handler fun args =>
+  match args with
+  | [d, .int s, .int j, parts] => do
+    let parts ← (← parts.toList?).mapM toFrame?
+    let out := Dask.Frame.daskMapCol (← toDict? d) s.toNat j.toNat { parts := parts }
+    pure (.list (out.parts.map ofFrame))
+  | _ => none
+
+/-- `(mapcolspec dict src dst (rows…))` ↦ the same on the whole frame (pandas semantics) -/
+def hMapColSpec : Handler := handler fun args =>
+  match args with
+  | [d, .int s, .int j, rows] => do
+    pure (ofFrame (Dask.Frame.mapCol (← toDict? d) s.toNat j.toNat (← toFrame? rows)))
   | _ => none
 
 /-! ### C37 -/
@@ -624,7 +645,7 @@ def table : List (String × Handler) := [
   ("overlap", hOverlap), ("winspec", hWinSpec), ("sideok", hSideOK), ("combined", hCombined),
   ("rollblockwise", hRollBlockwise), ("fillu", hFillU), ("fillspec", hFillSpec),
   ("tstart", hTStart), ("tslow", hTSlow), ("ttail", hTTail), ("toverlap", hTOverlap), ("tspec", hTSpec),
-  ("pipe", hPipe), ("pipespec", hPipeSpec),
+  ("pipe", hPipe), ("pipespec", hPipeSpec), ("mapcol", hMapCol), ("mapcolspec", hMapColSpec),
   ("treeshape", hTreeShape), ("reduce", hReduce), ("reducespec", hReduceSpec),
   ("reduce2", hReduce2), ("reduce2spec", hReduce2Spec), ("idxfn", hIdxFn), ("vcfn", hVcFn), ("mmfn", hMmFn),
   ("opteval", hOptEval), ("optcheck", hOptCheck), ("metaof", hMetaOf),
